@@ -20,6 +20,10 @@ M = [
  ('RandModels', {'W': 3, 'NMAX': 300, 'MMAX': 10}, None, ['accept_equal', 'chunk_floor']),
  ('CxxStreamModel', {'EMIT': 'FALSE', 'L': 2}, None, ['justlen_no_sign', 'upper_ignored', 'internal_as_right', 'showbase_always']),
  ('FatInit',   {'Threads': '{1, 2}', 'NF': 2, 'NT': 2, 'Ops': 2}, ('AlwaysDecided', 'SlotsSane', 'FinalVector', 'FlagImpliesInstalled'), ['flag_first']),
+ ('SqrtremDC', {'W': 4, 'TP': 2, 'NMAX': 2, 'WMAX': 4, 'EMIT': 'FALSE'}, ('Correct',), ['lost_carry_in_correction', 'no_final_adjust', 'no_2q_in_correction', 'no_sub_when_q', 'odd_bit_dropped',
+               's2_lost_carry_in_correction', 's2_no_final_adjust', 's2_no_qhl_loop', 's1_no_tab_fixup', 'w_no_s0_fix']),
+ ('SqrtremDC', {'W': 8, 'TP': 2, 'NMAX': 1, 'WMAX': 2, 'EMIT': 'FALSE'}, ('Correct',), ['s1_no_loop_adjust']),       # the sqrtrem1 doubling loop runs only for W >= 4*TP
+ ('Hgcd2',     {'W': 4, 'LOWSEL': 0, 'EMIT': 'FALSE'}, ('Correct',), ['no_small_check', 'q_not_incremented', 'sp_break_small', 'small_q_wrong', 'div2_gt']),
 ]
 def run(mod, consts, inv, variant):
     d = tempfile.mkdtemp(prefix='mv-')
